@@ -501,6 +501,14 @@ func (e *env) exec(i int, o Op) Obs {
 		if err != nil {
 			e.cold = append(e.cold, fmt.Sprintf("op %d: cold reopen failed: %v", i, err))
 		} else {
+			for _, ac := range uAccts {
+				addr := addrOf(ac)
+				if cs.Exist(addr) && cs.GetCodeHash(addr) != crypto.Keccak256Hash(nil) {
+					if len(cs.GetCode(addr)) == 0 || cs.GetCodeSize(addr) != len(cs.GetCode(addr)) {
+						e.cold = append(e.cold, fmt.Sprintf("op %d: the code hash of account %d names no code in the database", i, ac))
+					}
+				}
+			}
 			var a, b Obs
 			if p := guard(func() { a, b = view(ns), view(cs) }); p != "" {
 				e.cold = append(e.cold, fmt.Sprintf("op %d: panic reading reopened state: %s", i, p))
@@ -1040,9 +1048,22 @@ func (g *genr) amt() string {
 		return new(big.Int).Lsh(big.NewInt(1), 255).String()
 	case 4, 5:
 		return new(big.Int).Mul(unit, big.NewInt(int64(1+g.r.Intn(5)))).String()
+	case 6, 7, 8, 9:
+		return fmt.Sprintf("%d", 1+g.r.Intn(3)) // small pool: the same value is written again and again
 	default:
 		return fmt.Sprintf("%d", 1+g.r.Intn(1000))
 	}
+}
+
+// code: mostly from a small pool, so that an account gets byte-identical code twice
+// in one commit window, A-B-A sequences, and several accounts the same code.
+var codePool = [][]byte{{}, {1}, {2, 3}, {96, 0, 96, 0}}
+
+func (g *genr) code() []byte {
+	if g.r.Chance(80) {
+		return codePool[g.r.Intn(len(codePool))]
+	}
+	return g.r.Bytes(g.r.Intn(4))
 }
 func (g *genr) acct() uint64 { return uAccts[g.r.Intn(len(uAccts))] }
 func (g *genr) vid() uint64 {
@@ -1094,6 +1115,10 @@ func (g *genr) mutateVal(hd, id uint64) *Val {
 	old := st.GetValidatorByMainAddr(valAddr(id))
 	if old == nil {
 		return g.newValRec(id)
+	}
+	if g.r.Chance(15) { // the identical record once more
+		r := valRec(old)
+		return &r
 	}
 	nv := old.DeepCopy()
 	n := 1 + g.r.Intn(3)
@@ -1153,13 +1178,35 @@ func (g *genr) write(hd uint64) {
 	case k < 22:
 		g.do(Op{K: "setnonce", H: hd, A: a, B: uint64(g.r.Intn(4))})
 	case k < 28:
-		g.do(Op{K: "setcode", H: hd, A: a, Code: g.r.Bytes(g.r.Intn(4))})
+		c := g.code()
+		g.do(Op{K: "setcode", H: hd, A: a, Code: c})
+		if g.r.Chance(30) { // the same code once more, perhaps after a Finalise / IntermediateRoot, perhaps A-B-A
+			switch g.r.Intn(4) {
+			case 0:
+				g.do(Op{K: "finalise", H: hd, Del: g.del()})
+			case 1:
+				g.do(Op{K: "iroot", H: hd, Del: g.del()})
+			case 2:
+				g.do(Op{K: "setcode", H: hd, A: a, Code: g.code()})
+			}
+			g.do(Op{K: "setcode", H: hd, A: a, Code: c})
+		}
 	case k < 42:
 		v := "0"
 		if g.r.Chance(70) {
 			v = g.amt()
 		}
-		g.do(Op{K: "setstate", H: hd, A: a, B: uKeys[g.r.Intn(len(uKeys))], V: v})
+		k := uKeys[g.r.Intn(len(uKeys))]
+		g.do(Op{K: "setstate", H: hd, A: a, B: k, V: v})
+		if g.r.Chance(20) { // A-B-A or the same value again, with or without a Finalise between
+			if g.r.Bool() {
+				g.do(Op{K: "setstate", H: hd, A: a, B: k, V: g.amt()})
+			}
+			if g.r.Chance(30) {
+				g.do(Op{K: "finalise", H: hd, Del: g.del()})
+			}
+			g.do(Op{K: "setstate", H: hd, A: a, B: k, V: v})
+		}
 	case k < 45:
 		g.do(Op{K: "suicide", H: hd, A: a})
 	case k < 48:
@@ -1380,9 +1427,9 @@ func (g *genr) tPerm() {
 			c.final = Op{K: "setnonce", A: a, B: uint64(1 + g.r.Intn(9))}
 		case 2:
 			key = fmt.Sprint("code", a)
-			c.final = Op{K: "setcode", A: a, Code: g.r.Bytes(1 + g.r.Intn(3))}
+			c.final = Op{K: "setcode", A: a, Code: codePool[1+g.r.Intn(len(codePool)-1)]}
 			if g.r.Bool() {
-				c.noise = &Op{K: "setcode", A: a, Code: g.r.Bytes(g.r.Intn(3))}
+				c.noise = &Op{K: "setcode", A: a, Code: g.code()}
 			}
 		case 3, 4, 5:
 			k := uKeys[g.r.Intn(len(uKeys))]
@@ -1949,7 +1996,7 @@ func gen(seed uint64, n int, outDir, corpusDir string) {
 	vf.WriteFile(filepath.Join(outDir, "Cases.v"), sb.String())
 	res.Cases = count
 	res.Distinct = len(distinct)
-	res.Rule = "a case is one history over several StateDB handles sharing a database: random writes (accounts, storage, code, delegation lists, validators, statistics, withdraw queue, staking records, pending relationships) with Finalise/IntermediateRoot/Commit at random points and both deleteEmptyObjects flags; templates: random walk, the same cell writes permuted and regrouped on handles reopened from one commit, copy at a chosen point (inside a transaction, after Finalise, after IntermediateRoot, after Commit) followed by the same suffix on both sides, writes to one side of a copy, writes to BOTH sides of a copy, interleaved (appends/removals on the delegation list of one live delegator, or any writes: validators, delegations, withdraw queue, staking records, accounts), each side against an unshared twin reopened from a commit; one StateDB living across several Commits on the shared Database with ANY earlier committed roots reopened later (state.New and NewVldReader through the Database's trie cache, and through a new Database over the same disk) and IntermediateRoot of the reopened state; every call's result (root numbers, full reads of all observed addresses) is compared with the model; non-trivial = has a flush and a copy or reopen; distinct by full history"
+	res.Rule = "a case is one history over several StateDB handles sharing a database: random writes (accounts, storage, code, delegation lists, validators, statistics, withdraw queue, staking records, pending relationships; code, values and validator records mostly from small pools, so identical re-writes and A-B-A sequences inside one commit window are frequent) with Finalise/IntermediateRoot/Commit at random points and both deleteEmptyObjects flags; templates: random walk, the same cell writes permuted and regrouped on handles reopened from one commit, copy at a chosen point (inside a transaction, after Finalise, after IntermediateRoot, after Commit) followed by the same suffix on both sides, writes to one side of a copy, writes to BOTH sides of a copy, interleaved (appends/removals on the delegation list of one live delegator, or any writes: validators, delegations, withdraw queue, staking records, accounts), each side against an unshared twin reopened from a commit; one StateDB living across several Commits on the shared Database with ANY earlier committed roots reopened later (state.New and NewVldReader through the Database's trie cache, and through a new Database over the same disk) and IntermediateRoot of the reopened state; every call's result (root numbers, full reads of all observed addresses) is compared with the model; non-trivial = has a flush and a copy or reopen; distinct by full history"
 	res.Write(filepath.Join(outDir, "result.json"))
 }
 
